@@ -177,6 +177,27 @@ def forward_dir(cell, seed, mod=None, tag=''):
             okc, d, ratio = util.compare('x.grad vs A^T g', g[0], want, tol * float(np.abs(gc).max()) * 4)
             out.append(res(HELD, case, 'M-JAC', ratio=ratio) if okc else
                        res(VIOLATED, case, 'M-JAC', d, ratio=ratio, kf_key=kf))
+            # outputs scaled IN PLACE by the caller before back-propagating: the gradient must scale with them
+            case3 = {'cell': cell, 'check': tag + 'outputs modified in place before backward'}
+            x3 = x.detach().clone().requires_grad_(True)
+            ok3, y3 = util.call_lib(mod, x3)
+            if ok3:
+                ob3 = util.flat_outputs(y3)
+                ok_edit, e3 = util.call_lib(lambda: [o.mul_(0.5) for o in ob3])
+                g3 = e3
+                if not ok_edit:
+                    out.append(res(core.SKIPPED, case3, 'M-JAC', 'torch refuses the in-place edit of the outputs'))
+                    ok3 = None
+                else:
+                    ok3, g3 = util.call_lib(torch.autograd.grad, ob3, x3, cots)
+                if ok3 is None:
+                    pass
+                elif not ok3:
+                    out.append(res(VIOLATED, case3, 'M-JAC', 'backward after an in-place edit of the outputs raised %r' % (g3,), kf_key=kf))
+                else:
+                    okc, d, ratio = util.compare('x.grad vs 0.5 * A^T g', g3[0], 0.5 * want, tol * float(np.abs(gc).max()) * 4)
+                    out.append(res(HELD, case3, 'M-JAC', ratio=ratio) if okc else
+                               res(VIOLATED, case3, 'M-JAC', d, ratio=ratio, kf_key=kf))
             # a second cotangent, of magnitude 1e-10, pulled back through the same recorded graph
             case2 = {'cell': cell, 'check': tag + 'second pull-back, tiny cotangent'}
             cots2 = [1e-10 * util.make_input('randn', list(o.shape), seed + 50 + i) for i, o in enumerate(ob)]
